@@ -79,6 +79,24 @@ CLAIMS = {
         "networkx raises for missing nodes; Path.relative_to raises; engine CFG and guard formulas",
         "DESIGN.md section 4 C13",
     ),
+    "C14": (
+        "Decides a necessary condition of renaming invariance for all names: every startswith / endswith / in / find / replace / regex / "
+        "slice-by-length operation whose tested string derives from a module name (provenance computed by flow analysis, not variable names) "
+        "uses an idiom that compares whole dotted components; the name-cutting helpers cut at '.' only; sub-module sets follow hierarchy edges. "
+        "Does NOT decide invariance under renaming as a relation between two runs.",
+        "custom lint over string-relational operations with provenance (tag-flow) classification and accepted boundary-safe idiom table",
+        "engine flow analysis; accepted idioms listed in rules/names.py; reviewed user-pattern sites listed with reasons",
+        "DESIGN.md section 4 C14",
+    ),
+    "C17": (
+        "Decides the plot-label mechanism structurally for all trees and alias maps: boundary-safe, regex-free ancestor test; label = alias + "
+        "remainder after the matched ancestor; candidates longest first, first match wins; every graph node labelled exactly once with the full "
+        "name as default; aliases of unknown modules raise (naming the module) before any label is built; all other options reach the backend "
+        "unchanged; label computation keeps no state. Does NOT compute label maps.",
+        "F-NAME lint + dominance + shape checks of the label expression + effect analysis",
+        "engine flow/CFG/effects",
+        "DESIGN.md section 4 C17",
+    ),
 }
 
 NOT_BUILT_REASON = "static check not built yet in this session (planned rules: DESIGN.md section 4); no claim is made"
